@@ -214,6 +214,17 @@ func addTenants(ss *scenarioSet, thorough bool) {
 			Callers: []CallerSpec{{Label: "A", Reqs: one("A", 1), Metadata: md("tenant", "x")},
 				{Label: "B", Reqs: []Shape{simple("traces", "B", 1), simple("traces", "B2", 1)}, Metadata: md("tenant", "y")}}})
 	}
+	// the first request of a combination is cancelled while it waits for its response; the slot it
+	// took stays taken (its items are still exported): a further combination must stay refused
+	for _, early := range []bool{false, true} {
+		ss.add(Scenario{Name: "D8-limit1-cancel-first/er" + bools(early), QB: 1, TB: 2, Signal: "traces", S: 4, Timeout: T, Keys: keys, Limit: 1, Early: early,
+			Callers: []CallerSpec{{Label: "A", Cancellable: true, Reqs: one("A", 1), Metadata: md("tenant", "x")},
+				{Label: "B", ArriveAt: T / 4, Reqs: one("B", 1), Metadata: md("tenant", "y")}}})
+	}
+	// the same with the second combination racing freely, and a second request of the cancelled tenant
+	ss.add(Scenario{Name: "D8-limit1-cancel-first-free", QB: 1, TB: 2, Signal: "traces", S: 4, Timeout: T, Keys: keys, Limit: 1,
+		Callers: []CallerSpec{{Label: "A", Cancellable: true, Reqs: []Shape{simple("traces", "A", 1), simple("traces", "A2", 1)}, Metadata: md("tenant", "x")},
+			{Label: "B", Reqs: one("B", 1), Metadata: md("tenant", "y")}}})
 	// the flush timer ticks on an idle shard, then a size-triggered flush, then one more request and Shutdown
 	for _, early := range []bool{false, true} {
 		for _, sz := range []int{2, 3} {
@@ -355,6 +366,30 @@ func addTiming(ss *scenarioSet, thorough bool) {
 							}
 						}
 					}
+				}
+			}
+		}
+		// slow downstream: every export call takes a noticeable virtual time, so requests are
+		// accepted while earlier exports are still in flight and exports complete between ticks
+		if cfg[0] > 0 && cfg[2] > 0 {
+			delays := []time.Duration{3 * T / 4}
+			if thorough {
+				delays = []time.Duration{T / 4, 3 * T / 4, 5 * T / 4}
+			}
+			for _, dl := range delays {
+				n0 := len(pack.Pack)
+				for _, a := range sizes[:3] {
+					for _, b := range sizes[:3] {
+						for i, ta := range grid {
+							for _, tb := range grid[i:] {
+								addSeq([]int{a, b}, []time.Duration{ta, tb})
+							}
+						}
+					}
+				}
+				for _, sub := range pack.Pack[n0:] {
+					sub.SinkDelay = dl
+					sub.Name += fmt.Sprintf("slow%d", dl/(T/4))
 				}
 			}
 		}
